@@ -8,9 +8,10 @@ NRPC = 10
 
 
 def trace_cfg(prop):
-    return ("SPECIFICATION TSpec\nCONSTANTS\n  Pods = {1,2,3,4}\n  Rpcs = {%s}\n  Enis = {1,2,3,4}\n  Enforce = {\"%s\"}\n"
+    """prop = None: no property clause is enforced, only the interface facts of the specification."""
+    return ("SPECIFICATION TSpec\nCONSTANTS\n  Pods = {1,2,3,4}\n  Rpcs = {%s}\n  Enis = {1,2,3,4}\n  Enforce = {%s}\n"
             "CONSTRAINT Inv%s\nCONSTRAINT HighWater\nINVARIANT NotAccepted\nPOSTCONDITION Report\nCHECK_DEADLOCK FALSE\n" % (
-                ",".join(str(i) for i in range(1, NRPC + 1)), prop, prop))
+                ",".join(str(i) for i in range(1, NRPC + 1)), '"%s"' % prop if prop else "", prop or "None"))
 
 
 def run_harness(ctx, binary, fam, nshard, env, timeout=1500):
@@ -156,6 +157,12 @@ def run(ctx, prop, fam, relevant, assumptions):
     for k, line in rej:
         t = traces[k]
         bad = t[line - 1] if line - 1 < len(t) else {}
+        # who is to blame: a step that is rejected although no property clause is enforced fails an interface fact
+        # (the fakes and the specification disagree, or the driver is wrong): machinery, never a verdict
+        ok, hw, _ = tc.validate(ctx, "Daemon_trace", trace_cfg(None), proj[k], tag="blame")
+        if not ok and hw <= line:
+            raise MachineryError("trace %d (scenario %s) fails an interface fact of Daemon.tla at line %d: %s" % (
+                k, t[0].get("scen"), hw, json.dumps({a: b for a, b in (t[hw - 1] if hw - 1 < len(t) else {}).items() if a not in ("disk", "mem")})[:400]))
         label, case = classify(prop, t, line)
         case.update(failing_line=line, event=bad, reset=t[0], trace=t[max(1, line - 25):line + 1])
         add_violation(ctx, label, case, what="line %d %s" % (line, json.dumps({k: v for k, v in bad.items() if k not in ('seq', 'disk', 'mem', 'cloud')})[:300]))
